@@ -18,7 +18,7 @@ from .values import NDict, Vec, canon, from_canon, key_eq, mcanon, norm, render
 
 PID = "C09"
 LEVEL = "exploration"
-RULE = ("stateful histories of 8-40 dictionary operations over a pool of 40 keys with many distinct-but-equal "
+RULE = ("stateful histories of 8-40 dictionary operations over a pool of %d keys with many distinct-but-equal "
         "representatives; after every operation len/in/lookup of every pool key and the contents are compared with an "
         "association-list model; non-trivial = some operation addressed an existing entry through a key that is equal to "
         "but written differently from the one that created it; distinct by the statement list")
@@ -40,11 +40,15 @@ POOL = [
     ("a", '"a"'), ("", '""'), (None, "null"), (bytes([1]), "B[1]"), (Vec([1]), "V(1)"), (Vec([1.0]), "V(1.0)"),
     ([1], "[1]"), ([1.0], "[1.0]"), ([Fraction(1)], "[3/3]"), ([[1], Fraction(1)], "[[1], 2/2]"), ([[1.0], 1], "[[1.0], 1]"),
     (NDict([(1, 2)]), "{1: 2}"), (NDict([(1.0, 2)]), "{1.0: 2}"), (NDict([(1, 2.0)]), "{1: 2.0}"),
+    # == on dicts ignores the default value, so these address the same entries as the ones above
+    (NDict([(1, 2)], default=0, has_default=True), "{:0, 1: 2}"), ([NDict([(1, 2)])], "[{1: 2}]"),
+    ([NDict([(1.0, 2)], default=5, has_default=True)], "[{:5, 1.0: 2}]"),
     (2, "2"), (2.0, "2.0"), (3, "3"), ("b", '"b"'), ([1, 2], "[1, 2]"),
     (Fraction(1, 3), "(1/3)"), (1 / 3, "(1.0/3.0)"), (10 ** 30, "10^30"), (1e30, "1e30"), (complex(1, 1), "(1+1i)"),
     ([], "[]"), ("1", '"1"'),
 ]
 NK = len(POOL)
+RULE = RULE % NK
 CLASS = []  # class id per pool index
 for _i, (_v, _) in enumerate(POOL):
     for _j in range(_i):
@@ -392,11 +396,23 @@ def check_funcs(nl, case, ctx=None):
         {"src": "calls := 0; f := memoize(\\x -> (calls += 1; 0)); for (x <- %s) f(x); calls" % lst},
         {"src": "len(set(%s))" % lst},
     ]
+    # memoize keys on the whole argument tuple: f(a, b), f([a, b]), f(a), f() and f([]) are different calls
+    calls = [[i] for i in idxs] + [[i, j] for i, j in zip(idxs, idxs[1:])] + [[("L", i, j)] for i, j in zip(idxs, idxs[1:])] + [[], [("L",)]]
+    def arg_src(a):
+        return "k%d" % a if isinstance(a, int) else "[%s]" % ", ".join("k%d" % x for x in a[1:])
+    def arg_val(a):
+        return POOL[a][0] if isinstance(a, int) else [POOL[x][0] for x in a[1:]]
+    steps.append({"src": "calls2 := 0; f2 := memoize(\\...xs -> (calls2 += 1; 0)); %s; calls2" % "; ".join("f2(%s)" % ", ".join(arg_src(a) for a in c) for c in calls)})
+    tuples = []
+    for c in calls:
+        t = [arg_val(a) for a in c]
+        if not any(key_eq(t, u) for u in tuples):
+            tuples.append(t)
     results = nl.run(steps, fuel=500_000, timeout=60)
     np_ = len(PRELUDE)
     res = results[np_:]
     fails = []
-    names = ["unique", "frequencies", "count_distinct", "group_all", "memoize", "set"]
+    names = ["unique", "frequencies", "count_distinct", "group_all", "memoize", "set", "memoize_variadic"]
     for n_, r in zip(names, res):
         if r["status"] != "ok":
             return Fail("C09:fn:%s:%s" % (n_, r["status"]), "%s on %s: %s" % (n_, lst, {k: r.get(k) for k in ("status", "msg", "panic")}))
@@ -412,6 +428,9 @@ def check_funcs(nl, case, ctx=None):
     for idx, n_ in ((2, "count_distinct"), (4, "memoize"), (5, "set")):
         if norm(res[idx]["value"]) != {"i": str(nclass)}:
             fails.append(Fail("C09:fn:%s" % n_, "%s over %s = %s, expected %d classes" % (n_, lst, res[idx]["value"], nclass)))
+    if norm(res[6]["value"]) != {"i": str(len(tuples))}:
+        fails.append(Fail("C09:fn:memoize_variadic", "a variadic memoized function called with %s ran its body %s times, expected %d distinct argument tuples"
+                          % ([[arg_src(a) for a in c] for c in calls], res[6]["value"], len(tuples))))
     groups = [[from_canon(y) for y in g["l"]] for g in res[3]["value"]["l"]]
     okg = len(groups) == nclass and sum(len(g) for g in groups) == len(idxs) and all(all(key_eq(g[0], y) for y in g) for g in groups)
     if not okg:
